@@ -1,6 +1,6 @@
 (* C14  DUART status and interrupt requests always tell the truth. *)
 From Coq Require Import ZArith List Bool.
-From Dmd Require Import Model.Bits Model.Fifo Model.Mem Model.Duart Proofs.PortProofs Proofs.DuartProofs Gen.GenDuart Proofs.RegMapTie Gen.GenPort Proofs.PortTie.
+From Dmd Require Import Model.Bits Model.Fifo Model.Mem Model.Duart Proofs.PortProofs Proofs.DuartProofs Gen.GenDuart Proofs.RegMapTie Gen.GenPort Proofs.PortTie Gen.GenCmd Proofs.CmdTie.
 Open Scope Z_scope.
 
 (* the status invariant holds after every history of guest accesses to any register offset with any value,
@@ -132,3 +132,11 @@ Proof.
                             | apply disable_rx_is_source | apply loopback_is_source | apply rx_enabled_is_source].
 Qed.
 Print Assumptions C14_port_helpers_are_source_functions.
+
+(* the command interpreter is the source's: Gen/GenCmd.v is Duart::handle_command translated statement by statement from
+   /repo/src/duart.rs on every run (per-port interrupt-status table, enable / disable arms, the command match with its
+   resets and break commands), and the model's handle_command equals it for every command byte, channel and state *)
+Theorem C14_command_interpreter_is_source_function :
+  forall cmd pn d, handle_command cmd pn d = g_handle_command cmd pn d.
+Proof. exact handle_command_is_source. Qed.
+Print Assumptions C14_command_interpreter_is_source_function.
